@@ -863,10 +863,23 @@ func Run(ex *Explorer, prefix []int, body func(), o Options) *Exec {
 	}
 	wd := make(chan struct{})
 	go func() { x.wg.Wait(); close(wd) }()
+	// After a "done" execution every controlled goroutine has returned from its body (that is what "done"
+	// means: a goroutine that is still parked makes the execution a deadlock instead), so waiting for the
+	// real goroutines to exit is only a matter of the Go scheduler's time, not a verdict: no short wall-clock
+	// limit here. Aborted executions (deadlock, crash, step limit ...) are unwound with a short grace period.
+	grace := 500 * time.Millisecond
+	if x.Status == "done" {
+		grace = 120 * time.Second
+	}
 	select {
 	case <-wd:
-	case <-time.After(500 * time.Millisecond):
-		x.Leaked = true
+	case <-time.After(grace):
+		if x.Status == "done" {
+			x.Status = "lost-control"
+			x.Detail = "goroutines of a finished execution did not exit within 120 s"
+		} else {
+			x.Leaked = true
+		}
 	}
 	X = nil
 	return x
